@@ -2,6 +2,8 @@
 
 use serde_json::{json, Value};
 
+use crate::{rng::Rng, worker::catch};
+
 use crate::{
     collab::Ev,
     oracle::{self, authdata},
@@ -182,17 +184,76 @@ pub fn monitor(rep: &mut Report, history: u64, st: &Step) {
     }
 }
 
+/// Assertions over a conforming store whose items are vault entries: the converted `Passkey` carries
+/// the RP ID in another presentation (or not at all). What is hashed and signed is the request's RP ID.
+fn vault_assertions(rep: &mut Report, args: &Args) {
+    use crate::collab::{Disc, VaultStore, VaultUv};
+    use crate::util::{descriptor, ga_request, seeded_passkey, Rig};
+    let only = replay_index(args);
+    let n = args.size(60, 1200) as u64;
+    for k in 0..n {
+        let index = 30_000_000 + k;
+        if only.map_or(false, |o| o != index) {
+            continue;
+        }
+        rep.eval();
+        let mut rng = Rng::derive(args.seed, "c03vault", k);
+        let rp = *rng.pick(&["example.com", "login.example.org", "xn--mnchen-3ya.de"]);
+        let presentation: Option<String> = match rng.below(4) {
+            0 => None,
+            1 => Some(String::new()),
+            2 => Some(rp.to_ascii_uppercase()),
+            _ => Some(format!("{rp}.")),
+        };
+        let rig = Rig::ok(Disc::Full);
+        let id = rng.bytes(24);
+        let counter = if rng.bool() { Some(rng.below(1000) as u32) } else { None };
+        let (pk, x, y) = seeded_passkey(&mut rng, rp, &id, Some(b"user"), counter, None);
+        rig.store.insert_raw(pk);
+        let store = VaultStore { inner: rig.store.clone(), locked: Default::default(), rp_as_converted: presentation.clone() };
+        let mut auth = passkey_authenticator::Authenticator::new(passkey_types::ctap2::Aaguid::new_empty(), store, VaultUv(rig.uv.clone()));
+        let cdh = rng.bytes(32);
+        let with_list = rng.bool();
+        let case = json!({"index": index, "part": "vault-store", "rp_id": rp, "rp_id_carried_by_the_converted_item": presentation, "allow_list": with_list, "counter": counter});
+        rep.nontrivial(fnv_str(&format!("vault|{rp}|{presentation:?}|{with_list}|{}", counter.is_some())));
+        match catch(|| crate::exec::block_on(auth.get_assertion(ga_request(rp, &cdh, with_list.then(|| vec![descriptor(&id)]), None, true, true)))) {
+            Err((sig, d)) => rep.violate(&format!("vault store: get_assertion {sig}"), d, case),
+            Ok(Err(e)) => rep.violate("vault store: assertion with the only eligible credential failed", format!("{:#x}", crate::util::status_byte_ref(&e)), case),
+            Ok(Ok(resp)) => {
+                rep.count("vault_assertions_checked");
+                let ad = resp.auth_data.to_vec();
+                match authdata::decode(&ad) {
+                    Ok(d) => {
+                        if d.rp_id_hash != oracle::sha256(rp.as_bytes()) {
+                            rep.violate("vault store: assertion rpIdHash is not SHA-256 of the requested RP ID", format!("converted item carries {presentation:?}"), case.clone());
+                        }
+                    }
+                    Err(e) => rep.violate("vault store: authenticator data does not decode", format!("{e:?}"), case.clone()),
+                }
+                let mut msg = ad.clone();
+                msg.extend_from_slice(&cdh);
+                if let Err(e) = oracle::verify_es256_any(&x, &y, &msg, &resp.signature) {
+                    rep.violate("vault store: assertion signature does not verify over authData || clientDataHash", e, case.clone());
+                }
+            }
+        }
+    }
+}
+
 pub fn run(args: &Args) -> Report {
     let mut rep = Report::new(
         "C03",
         &args.tier,
         args.seed,
-        "seeded histories interleaving registrations and authentications over 3 RP ids, several users, allow lists (absent, empty, subset, unknown ids, other RP's ids), UV requirements x user-validation outcomes, all client-data modes, at client and CTAP level; distinct by request shape (challenge length, allow-list kind, client-data mode, UV requirement, number of eligible credentials, store size) and position; non-trivial when the assertion succeeded and all clauses were evaluated, or it is the specified failure (consent given, no eligible credential)",
+        "seeded histories interleaving registrations and authentications over 3 RP ids, several users, allow lists (absent, empty, subset, unknown ids, other RP's ids), UV requirements x user-validation outcomes, all client-data modes, at client and CTAP level, plus CTAP assertions over a conforming store of vault items whose converted form carries the RP ID in another presentation; distinct by request shape (challenge length, allow-list kind, client-data mode, UV requirement, number of eligible credentials, store size) and position; non-trivial when the assertion succeeded and all clauses were evaluated, or it is the specified failure (consent given, no eligible credential)",
     );
     rep.assumptions.push("public keys are taken from the outputs of earlier registrations in the same history (parsed by the own decoder)".into());
     rep.assumptions.push("eligibility is computed with the documented store contract over the reference store".into());
     let n = args.size(500, 15_000);
     run_histories(args, &mut rep, "c03", n, 35, |rep, h, st| monitor(rep, h, st));
+    if replay_index(args).map_or(true, |o| (30_000_000..40_000_000).contains(&o)) {
+        vault_assertions(&mut rep, args);
+    }
     if replay_index(args).is_none() && (rep.get("authenticate_ok") == 0 || rep.get("get_ok") == 0 || rep.get("no_eligible_after_consent") == 0) {
         rep.inconclusive("no successful assertion at both levels / no consented-but-no-credential case observed".into());
     }
